@@ -128,6 +128,9 @@ type Options struct {
 	HangTimeout time.Duration // no message from a worker for this long => killed (default 180s)
 	MemLimit    uint64        // RLIMIT_AS per worker (0 = 12 GiB)
 	Env         []string
+	// FreshProcess: every shard runs in a brand-new worker process (cold package-level state:
+	// lazily filled caches, once-initialised tables), at the price of a process start per shard.
+	FreshProcess bool
 }
 
 type Stats struct {
@@ -283,6 +286,10 @@ func Run(shards []Shard, opt Options, onRec func(shard int, rec json.RawMessage)
 						}
 					}
 					if done {
+						if opt.FreshProcess {
+							p.kill()
+							p = nil
+						}
 						break
 					}
 					// worker death
